@@ -644,4 +644,51 @@ V("c13-invalid-response-kept", "C13", "response.py",
 OK("c13-benign-message-text", "C13", "validate.py",
    '"less then min (%s<%s)"', '"fewer than min (%s<%s)"')
 
+# ------------------------------------------------------------------ C14
+V("c14-relay-state-unescaped", "C14", "pack.py",
+  "                val=html.escape(relay_state),", "                val=relay_state,", rule="H2")
+V("c14-message-quote-false", "C14", "pack.py",
+  "            val=html.escape(_msg),", "            val=html.escape(_msg, quote=False),", rule="H2")
+V("c14-form-spec-used", "C14", "client_base.py",
+  "    def _relay_state(self, session_id):",
+  "    def legacy_form(self, location, req, rs):\n        return FORM_SPEC % (location, req, rs)\n\n    def _relay_state(self, session_id):",
+  rule="H1")
+V("c14-new-template", "C14", "pack.py",
+  "DUMMY_NAMESPACE = \"http://example.org/\"",
+  "LINK_SPEC = '<a href=\"{url}\">{label}</a>'\nDUMMY_NAMESPACE = \"http://example.org/\"",
+  rule="H1")
+V("c14-relay-manual-append", "C14", "pack.py",
+  "    glue_char = \"&\" if urlparse(location).query else \"?\"\n    login_url = glue_char.join([location, string])",
+  "    glue_char = \"&\" if urlparse(location).query else \"?\"\n    login_url = glue_char.join([location, string])\n    if relay_state and 'RelayState' not in string:\n        login_url += '&RelayState=' + relay_state",
+  rule="U1")
+V("c14-glue-always-question", "C14", "pack.py",
+  "    glue_char = \"&\" if urlparse(location).query else \"?\"", "    glue_char = \"?\"", rule="U1")
+V("c14-artifact-no-urlencode", "C14", "httpbase.py",
+  "            query = urlencode({\"SAMLart\": message,\n                               \"RelayState\": relay_state})",
+  "            query = \"SAMLart=%s&RelayState=%s\" % (message, relay_state)", rule="U1")
+V("c14-inflate-wbits-positive", "C14", "s_utils.py",
+  "    return zlib.decompress(base64.b64decode(string), -15)",
+  "    return zlib.decompress(base64.b64decode(string), 15)", rule="P2")
+V("c14-encoder-keeps-header", "C14", "s_utils.py",
+  "    return base64.b64encode(zlib.compress(string_val)[2:-4])",
+  "    return base64.b64encode(zlib.compress(string_val))", rule="P2")
+V("c14-post-decoder-inflates", "C14", "entity.py",
+  "                elif binding == BINDING_HTTP_POST:\n                    xmlstr = base64.b64decode(txt)",
+  "                elif binding == BINDING_HTTP_POST:\n                    xmlstr = decode_base64_and_inflate(txt)",
+  rule="P1")
+V("c14-redirect-uses-post-encoder", "C14", "entity.py",
+  "            info = self.use_http_get(msg_str, destination, relay_state, typ,\n                                     signer=signer, **kwargs)",
+  "            info = self.use_http_post(msg_str, destination, relay_state, typ)", rule="P1")
+V("c14-soap-tag-check-removed", "C14", "soap.py",
+  "    if saml_part.tag in expected_tags:\n        return ElementTree.tostring(saml_part, encoding=\"UTF-8\")\n    else:\n        raise WrongMessageType(\"Was '%s' expected one of %s\" % (saml_part.tag,\n                                                                expected_tags))",
+  "    return ElementTree.tostring(saml_part, encoding=\"UTF-8\")", rule="S1")
+V("c14-soap-decoder-removed", "C14", "soap.py",
+  "def parse_soap_enveloped_saml_authn_query(text):\n    expected_tag = '{%s}AuthnQuery' % SAMLP_NAMESPACE\n    return parse_soap_enveloped_saml_thingy(text, [expected_tag])\n",
+  "", rule="S2")
+V("c14-soap-decoder-wrong-tag", "C14", "soap.py",
+  "    expected_tag = '{%s}LogoutRequest' % SAMLP_NAMESPACE", "    expected_tag = '{%s}LogoutResponse' % SAMLP_NAMESPACE",
+  rule="S2")
+OK("c14-benign-escape-import-alias", "C14", "pack.py",
+   "                val=html.escape(relay_state),", "                val=html.escape(relay_state, quote=True),")
+
 VARIANTS[:] = [v for v in VARIANTS if v]
